@@ -40,6 +40,8 @@ theorem life_wakeOne (q : Quirks) (s : State) (c' : Conn) :
   · exact ⟨rfl, rfl⟩
   · simp only []
     split
+    · rw [notify_conns]; exact ⟨rfl, rfl⟩
+    split
     · exact ⟨rfl, rfl⟩
     · split
       · split <;> simp
@@ -312,7 +314,10 @@ theorem Inv_wakeOne (q : Quirks) (s : State) (hI : Inv s) : Inv (wakeOne q s) :=
     have hcw := hI.counts w.key
     have hWs : ∀ k', cntW s k' = rest.countP (fun w' => w'.key == k') + (if (w.key == k') = true then 1 else 0) := by
       intro k'; unfold cntW; rw [hw, List.countP_cons]
-    simp only []
+    have htgt : wakeTargetOk { s with wakeQ := rest } w = true := by
+      have hl : isBlockedLive { s with wakeQ := rest } w.conn = true := isBlockedLive_of (s := { s with wakeQ := rest }) h0 hg hb
+      simp [wakeTargetOk, hl, hb]
+    simp only [htgt, Bool.true_eq_false, and_false, if_false]
     split
     · next hpe =>
       exfalso
